@@ -209,6 +209,44 @@ fn gen_crash(seed: u64, tier: Tier) -> Scenario {
     s
 }
 
+fn gen_ext(seed: u64, tier: Tier) -> Scenario {
+    gen::gen_history(seed, if tier == Tier::Quick { 24 } else { 40 }, true, true)
+}
+fn docs(tier: Tier) -> usize {
+    if tier == Tier::Quick { 40 } else { 200 }
+}
+fn gen_corpus_plain(seed: u64, tier: Tier) -> Scenario {
+    gen::gen_corpus(seed, &gen::CorpusCfg { max_docs: docs(tier), with_vec: false, with_images: false, mutate: false })
+}
+fn gen_corpus_mut(seed: u64, tier: Tier) -> Scenario {
+    gen::gen_corpus(seed, &gen::CorpusCfg { max_docs: docs(tier), with_vec: true, with_images: false, mutate: true })
+}
+fn gen_corpus_vec(seed: u64, tier: Tier) -> Scenario {
+    gen::gen_corpus(seed, &gen::CorpusCfg { max_docs: docs(tier), with_vec: true, with_images: false, mutate: true })
+}
+fn gen_corpus_img(seed: u64, tier: Tier) -> Scenario {
+    gen::gen_corpus(seed, &gen::CorpusCfg { max_docs: docs(tier) / 2, with_vec: false, with_images: true, mutate: true })
+}
+
+pub const RULE_CORPUS: &str = "seeded corpora (1..40 documents in quick, ..200 in thorough: short and chunked texts over a fixed pseudo-word vocabulary with planted query words, random uris/tags/tracks/timestamps/embeddings, instant indexing on or off, commits every n documents, updates and deletes addressed by uri) followed by a query battery (single words, AND/OR/NOT, phrases, field terms, uri/scope, as_of filters, sketch on/off, top_k 1..50, timelines, vector queries) issued while records are pending, after commit, after reopen, on a read-only handle and after a doctor rebuild; a run is non-trivial iff >=1 mutation was acknowledged and >=1 full model comparison ran on a reopened handle; distinct = distinct (op-kind count buckets, probes hit) classes among non-trivial runs";
+
+fn hist(id: &'static str, gen: fn(u64, Tier) -> Scenario, probes: &'static [&'static str]) -> CheckDef {
+    CheckDef { id, level: "exploration", quick_s: 40, thorough_s: 600, gen, run: run_history, rule: RULE_HISTORY, assumptions: &["reference model as in C01"], want_probes: probes }
+}
+fn corpus(id: &'static str, gen: fn(u64, Tier) -> Scenario, probes: &'static [&'static str]) -> CheckDef {
+    CheckDef {
+        id,
+        level: "exploration",
+        quick_s: 40,
+        thorough_s: 600,
+        gen,
+        run: run_history,
+        rule: RULE_CORPUS,
+        assumptions: &["reference model as in C01", "ground truth for 'which frames contain the word' is re-derived from the real handle's own frame_text_by_id", "reference boolean evaluator with the substring semantics the property states"],
+        want_probes: probes,
+    }
+}
+
 pub const RULE_HISTORY: &str = "seeded random histories (swarm mix of op kinds, payload classes, WAL steering); a run is non-trivial iff >=1 mutation was acknowledged and >=1 full model comparison ran on a reopened handle; distinct = distinct (op-kind count buckets, fault kinds fired, rare-state probes hit) classes among non-trivial runs";
 pub const RULE_CRASH: &str = "seeded random histories executed once under the syscall recorder; crash images are derived from the log (quick: stratified sample of cuts per segment incl. partial last syscall; thorough: every cut when the segment has <=400 mutating syscalls), each opened with the real Memvid::open and compared with the reference model; a run is non-trivial iff >=1 mutation was acknowledged and >=1 crash image opened and was compared; distinct = distinct (op-kind buckets, fault kinds, probes) classes among non-trivial runs";
 
@@ -258,6 +296,17 @@ pub fn all() -> Vec<CheckDef> {
             assumptions: &["process-crash model inside Memvid::open's recovery, nested up to depth 3; the uninterrupted recovery of the same image is the reference"],
             want_probes: &["recoveries_recorded", "nested_crash_images"],
         },
+        hist("C06", gen_ext, &["vacuum", "doctor", "chunked_puts", "updates"]),
+        hist("C07", gen_ext, &["chunked_puts", "replay_on_open"]),
+        corpus("C08", gen_corpus_mut, &["searches_with_hits", "timelines", "deletes", "updates"]),
+        corpus("C09", gen_corpus_plain, &["recall_checks"]),
+        corpus("C10", gen_corpus_mut, &["searches_with_hits"]),
+        corpus("C11", gen_corpus_plain, &["as_of_comparisons"]),
+        corpus("C13", gen_corpus_vec, &["vec_searches_checked"]),
+        corpus("C14", gen_corpus_vec, &["vec_membership_checks", "vec_searches_checked"]),
+        corpus("C15", gen_corpus_img, &["timelines"]),
+        corpus("C16", gen_corpus_plain, &["pagination_multi_page"]),
+        corpus("C28", gen_corpus_mut, &["differential_compares"]),
         CheckDef {
             id: "C05",
             level: "exploration",
